@@ -371,7 +371,7 @@ def worker(shard, nshards, tier, seed):
 
 
 def run(tier, seed):
-    acc = parallel(worker, tier, seed)
+    acc = parallel(worker, tier, seed, warm_pass=True)
     kinds = sorted(k for k in acc.n if k.startswith("kind:"))
     cov = {
         "states": acc.n["pairs"],
